@@ -113,7 +113,7 @@ Proof.
   destruct (ingest_spec _ _ _ _ _ I H) as [_ [extra0 [Ea0 [Hcont0 _]]]].
   revert H. unfold ingest.
   destruct (c_max_wal_bytes c <? wal_size s); [discriminate|].
-  destruct (prepare (c_seed c) b (tabs s) [] []) as [[[l1 created] colrows]| | | |] eqn:Ep;
+  destruct (prepare code_seed b (tabs s) [] []) as [[[l1 created] colrows]| | | |] eqn:Ep;
     cbn [bind]; try discriminate.
   destruct (prepare_spec s I C _ _ _ _ _ _ _ _ (prep_inv_start s C) (wb_user _ W) Ep) as [P1 Ecol].
   cbn [app] in Ecol. fold (colrows_of (log_names (acked s)) b) in Ecol. subst colrows.
@@ -240,9 +240,9 @@ Proof.
       - eapply sort_segs_sorted. apply (i_ids _ I).
       - intros x HI. apply N.leb_le. rewrite Ecur. eapply seqN_ge. rewrite <- (i_ids _ I). apply in_map. exact HI. }
     rewrite Ekeep.
-    destruct (restore_tables (c_seed c) (tabs s)) as [l0| | | |] eqn:E0; cbn [bind]; try discriminate.
-    destruct (create_if_empty (c_seed c) s_meta_tables l0) as [l1 b1] eqn:E1.
-    destruct (replay (c_seed c) (d_wal s) None l1) as [l2| | | |] eqn:E2; cbn [bind]; try discriminate.
+    destruct (restore_tables code_seed (tabs s)) as [l0| | | |] eqn:E0; cbn [bind]; try discriminate.
+    destruct (create_if_empty code_seed s_meta_tables l0) as [l1 b1] eqn:E1.
+    destruct (replay code_seed (d_wal s) None l1) as [l2| | | |] eqn:E2; cbn [bind]; try discriminate.
     intro H. injection H as <-. cbn [tabs]. intro L.
     destruct (replay_keys _ _ _ _ _ E2 n (lookup_some_in _ _ _ L)) as [HI|[x [Hx Hnm]]].
     - destruct (create_if_empty_spec _ _ _ _ _ E1) as [_ [_ [_ [_ [_ Kc]]]]].
